@@ -207,6 +207,9 @@ def ops_oracle(c, bad):
     if o.get("v") != "ok":
         return
     order = topo_or_none(keys, adj)
+    if order is None:
+        bad.append(("accepted-cyclic", "the graph has a cycle (or an edge to a missing node) but was accepted"))
+        return
     outs, insets, layer, nlayer, reach, rin, crit, critin = facts(keys, adj, order)
     # AllInsSorted: the indirect inputs in layer order, names breaking ties
     if 0 <= oi["aisof"] < len(keys):
@@ -297,6 +300,8 @@ def ops_oracle(c, bad):
     ckeys = sorted(cs)
     cadj = {k: sorted(t for t in outs[k] if t in cs) for k in ckeys}
     corder = topo_or_none(ckeys, cadj)
+    if corder is None:
+        return
     couts, cins, clayer, cnl, creach, crin, ccrit, ccritin = facts(ckeys, cadj, corder)
     got = {n["k"]: n for n in oo.get("clo") or []}
     if set(got) != cs:
